@@ -2,7 +2,7 @@ from abc import ABC, abstractmethod
 from collections.abc import Sequence
 from inspect import isclass
 from itertools import chain
-from numpy import abs, diag, exp, eye, log, zeros, ndarray, ptp
+from numpy import abs, diag, exp, eye, log, zeros, ndarray, ptp, ndim
 
 
 class CovarianceFunction(ABC):
@@ -136,6 +136,10 @@ class WhiteNoise(CovarianceFunction):
     """
 
     def __init__(self, hyperpar_bounds=None):
+        # the bounds of every covariance function are held as a list of (lower, upper)
+        # pairs, one per hyper-parameter: wrap a bare (lower, upper) pair
+        if hyperpar_bounds is not None and ndim(hyperpar_bounds) == 1:
+            hyperpar_bounds = [tuple(hyperpar_bounds)]
         self.bounds = hyperpar_bounds
         self.n_params = 1
         self.hyperpar_labels = ["WhiteNoise log-sigma"]
